@@ -106,6 +106,8 @@ fn run(routine: &str, rest: &[String]) -> String {
         #[cfg(feature = "hooks")]
         "render_wide" => c11::render_wide(rest),
         #[cfg(feature = "hooks")]
+        "render_widemsg" => c11::render_widemsg(rest),
+        #[cfg(feature = "hooks")]
         "render_lines" => c11::render_lines(rest),
         "template_fields" => c10::template_fields(rest),
         "pos_arith" => public::pos_arith(rest),
